@@ -317,6 +317,12 @@ fn compress_literals(
     last_table: Option<&huff0_encoder::HuffmanTable>,
     writer: &mut BitWriter<&mut Vec<u8>>,
 ) -> Option<huff0_encoder::HuffmanTable> {
+    // A huffman table needs at least two different symbols
+    if literals.iter().all(|x| *x == literals[0]) {
+        raw_literals(literals, writer);
+        return None;
+    }
+
     let reset_idx = writer.index();
 
     let new_encoder_table = huff0_encoder::HuffmanTable::build_from_data(literals);
